@@ -277,6 +277,13 @@ def normalise(fi: FuncInfo) -> FuncInfo:
     class Upd(ast.NodeTransformer):
         def visit_Expr(self, st):
             c = st.value
+            # N7: a comprehension evaluated only for its side effects, `[f(x) for T in IT if C]`, is the loop it abbreviates
+            if isinstance(c, ast.ListComp) and len(c.generators) == 1 and not c.generators[0].is_async and isinstance(c.elt, ast.Call):
+                g = c.generators[0]
+                body: List[ast.stmt] = [ast.Expr(value=c.elt)]
+                for cond in reversed(g.ifs):
+                    body = [ast.If(test=cond, body=body, orelse=[])]
+                return ast.copy_location(ast.For(target=_as_store(g.target), iter=g.iter, body=body, orelse=[]), st)
             if isinstance(c, ast.Call) and isinstance(c.func, ast.Attribute) and c.func.attr == "update" and len(c.args) == 1 and not c.keywords and isinstance(c.args[0], ast.DictComp) and q.dotted(c.func.value) is not None:
                 dc = c.args[0]
                 if len(dc.generators) == 1 and not dc.generators[0].is_async:
@@ -375,13 +382,14 @@ def concat_pieces(e: ast.AST) -> Optional[List[ast.AST]]:
         import re as _re
         fmt = e.left.value
         args = list(e.right.elts) if isinstance(e.right, ast.Tuple) else [e.right]
-        parts = _re.split(r"(%s)", fmt)
-        if "%" in "".join(p_ for p_ in parts if p_ != "%s") or parts.count("%s") != len(args):
+        parts = _re.split(r"(%[sdi])", fmt)
+        holes_ = [p_ for p_ in parts if p_ in ("%s", "%d", "%i")]
+        if "%" in "".join(p_ for p_ in parts if p_ not in ("%s", "%d", "%i")) or len(holes_) != len(args):
             return None
         out = []
         it = iter(args)
         for p_ in parts:
-            if p_ == "%s":
+            if p_ in ("%s", "%d", "%i"):
                 out.append(next(it))
             elif p_:
                 out.append(ast.Constant(value=p_))
